@@ -13,11 +13,14 @@ use crate::scripts::ScriptGen;
 use crate::world::RunRecord;
 use rt::spec::Entry;
 
-pub struct CustomChain;
+/// the same worlds decide C11 (bridge) and contribute to C02 (dispatch on a custom chain)
+pub struct CustomChain {
+    pub prop: &'static str,
+}
 
 impl Profile for CustomChain {
     fn property(&self) -> &'static str {
-        "C11"
+        self.prop
     }
     fn name(&self) -> &'static str {
         "f5-custom-chain"
